@@ -147,14 +147,29 @@ def run_case(case):
     sig, conds, fam = gen.gen_base(rng, 'weak_or_strong' if weakly else 'strong',
                                    family=rng.choice([None, 'multiex', 'chain', 'conjcons', 'multiex'] if order_matters else
                                                      [None, None, None, 'multiex', 'chain', 'conjcons', 'indep']))
-    twins = conds and tname in ('rewrite-base', 'compose', 'reorder') and rng.random() < 0.6
+    wq = None
+    if tname in ('rewrite-base', 'compose', 'rewrite-query', 'reorder', 'reverse', 'rekey-sparse', 'rekey0') and rng.random() < 0.15:
+        # a base of the witness corpus (shapes on which correction-set cost and cardinality disagree, ties ...)
+        from .. import witness
+        wi = rng.randrange(len(witness.WITNESSES))
+        wname, sig, conds, wq, ext_only = witness.asts(wi)
+        if len(sig) <= 8:
+            weakly = bool(ext_only) or weakly
+            fam = 'witness:' + wname
+            bump('witness_bases')
+        else:
+            wq = None
+            sig, conds, fam = gen.gen_base(rng, 'weak_or_strong' if weakly else 'strong')
+    twins = conds and tname in ('rewrite-base', 'compose', 'reorder') and rng.random() < 0.6 and not wq
     if twins:
         # an identically spelled duplicate of one rule (counted twice by lexicographic inference); the
         # transformation below re-spells exactly one of the two copies
         conds = list(conds) + [conds[rng.randrange(len(conds))]]
     n = len(conds)
     qs = gen.gen_queries(rng, sig, conds, 6, extra_atom_p=0.0, p_tie=0.8 if twins else 0.7 if order_matters else 0.4)
-    if rng.random() < 0.5 and conds:
+    if wq:
+        qs[:len(wq[:4])] = wq[:4]
+    if rng.random() < 0.5 and conds and not wq:
         qs[0] = conds[0]                     # the first rule as a query (direct inference)
     if order_matters or (tname == 'compose' and rng.random() < 0.5):
         for qi in (2, 3, 4):
@@ -262,6 +277,10 @@ def run_case(case):
     for k in keys2:
         bump('key_class', 'zero' if k == 0 else 'in-1..n' if 1 <= k <= n else 'beyond-n')
 
+    two_calls = rng.random() < 0.35
+    if two_calls:
+        bump('transformed_presentation_asked_in_a_later_call')
+        tdesc['asked_in_second_call_on_one_manager'] = True
     base = rm.Base(sig, conds)
     st = rm.Setup(base, weakly)
     nontriv = any((base.q(B, A)[0] & st.feas) and (base.q(B, A)[1] & st.feas) for (B, A) in qs)
@@ -272,6 +291,16 @@ def run_case(case):
 
         def run(s, c, k, q, qk):
             try:
+                if k is not None and two_calls:
+                    # the transformed presentation is asked in a LATER call on a manager that has already
+                    # answered (an answer is an answer, whichever call it comes from)
+                    from inference.inference_manager import InferenceManager
+                    args = dict(weakly=weakly)
+                    if p:
+                        args['pmaxsat_solver'] = p
+                    m = InferenceManager(impl.mk_bb(s, c, keys=k), system, **args)
+                    m.inference(impl.mk_queries(q[:2], keys=qk[:2]))
+                    return impl.results(m.inference(impl.mk_queries(q, keys=qk)))
                 df = impl.ask(impl.mk_bb(s, c, keys=k), system, p, impl.mk_queries(q, keys=qk), weakly=weakly)
                 return impl.results(df)
             except Exception as e:
